@@ -320,15 +320,32 @@ func (e *Env) src(op Op) []byte {
 // parseOpts: the parse options of a call and, when the caller supplies its own context, that
 // context (so that the caller can look into it after the call, see inspectCtx).
 func parseOpts(op Op, y *yielder, keep *parser.Context) []parser.ParseOption {
+	// A ParseOption is a function the parser calls while it sets a call up: one more seam the
+	// code already has. Under the scheduler a no-op option yields there, i.e. INSIDE the
+	// prologue of Parse, between the creation of the call's configuration and its first use
+	// (before and after the caller's context is handed over).
+	var yo parser.ParseOption
+	if y != nil {
+		yo = func(*parser.ParseConfig) { y.yield(sitePO) }
+	}
+	wrap := func(o parser.ParseOption) []parser.ParseOption {
+		if yo == nil {
+			return []parser.ParseOption{o}
+		}
+		return []parser.ParseOption{yo, o, yo}
+	}
 	switch {
 	case op.Ctx:
 		inner := parser.NewContext()
 		*keep = inner
-		return []parser.ParseOption{parser.WithContext(&simCtx{inner, y})}
+		return wrap(parser.WithContext(&simCtx{inner, y}))
 	case op.CtxPlain:
 		pc := parser.NewContext()
 		*keep = pc
-		return []parser.ParseOption{parser.WithContext(pc)}
+		return wrap(parser.WithContext(pc))
+	}
+	if yo != nil {
+		return []parser.ParseOption{yo}
 	}
 	return nil
 }
